@@ -101,6 +101,22 @@ theorem C10_recv_cancel_then_lost_finisheds {mx Ta Ti Tn : Nat} (s : Send.State)
   obtain ⟨pa, q1, q2, q3, q4, q5⟩ := c2 pf hpf
   exact ⟨pa, q1, q2, by rw [q3, f1], q4, by rw [q5, kc]⟩
 
+/-! ### the premises are satisfiable -/
+
+example : (finRounds (recvStep (recvStep exR4 5 .cancel) 5 .send) [1000000005, 2000000100]).2.length = 2 ∧
+    ∀ pf ∈ (finRounds (recvStep (recvStep exR4 5 .cancel) 5 .send) [1000000005, 2000000100]).2,
+      ∃ pa, (sendStep (sendStep exS4 2000000200 (.pdu pf)) 2000000200 .send).sent = some pa ∧
+        (sendStep (sendStep exS4 2000000200 (.pdu pf)) 2000000200 .send).condition = .CancelReceived := by
+  have hri : RI cfgL.max (cfgL.ta * 1000000000) (cfgL.ti * 1000000000) (cfgL.tn * 1000000000) exR4 :=
+    ri_run _ _ (ri_new cfgL [([], .dir)] 0 (by decide) (by decide) (by decide) ⟨by decide, by decide, by decide⟩)
+  obtain ⟨c1, c2⟩ := C10_recv_cancel_then_lost_finisheds (mx := 4) (Ta := 1000000000) (Ti := 3000000000) (Tn := 1000000000)
+    exS4 exR4 5 0 0 0 2000000200 2000000300 [1000000005, 2000000100] (by decide) (by decide) (by decide)
+    (by decide) (by decide) (by decide) (by decide) (by decide) hri.inv.rt (by decide) ⟨by decide, by decide, by decide⟩ (by decide)
+    ⟨by decide, by decide, by decide, by decide, by decide, by decide, by decide, by decide, by decide, by decide, trivial⟩
+  refine ⟨c1, fun pf hpf => ?_⟩
+  obtain ⟨pa, q1, _, q3, _⟩ := c2 pf hpf
+  exact ⟨pa, q1, q3⟩
+
 end Cfdp.Loop
 
 #print axioms Cfdp.Loop.C10_recv_cancel_then_lost_finisheds
